@@ -2,6 +2,7 @@ import IgrisModel.C02.Lemmas
 import IgrisModel.C02.Bisect
 import IgrisModel.C02.Flat
 import IgrisModel.C02.FlatVecLemmas
+import IgrisModel.C02.ExcLemmas
 /-!
   C02 — property theorems.
 
@@ -356,6 +357,47 @@ theorem ledger_balance (portable : Bool) (R : Nat) (ops : List Op)
     std::vector::erase(pos) removes the single element at `k`. -/
 theorem erase_pos_witness : ([1, 2, 3] : List Val).take 0 ≠ ([1, 2, 3] : List Val).eraseIdx 0 := by decide
 
+/-- FINDING C02-erase-pos on the MODEL.  The full statement — "`erase(pos)` removes exactly the element at
+    `pos`, like std::vector::erase(pos)":
+      `Rep v xs → k < xs.length → ∃ v' l', eraseTo v k l = some (v', l') ∧ Rep v' (xs.eraseIdx k)`
+    — is FALSE for the code (witness below): igris' `erase(iterator newend)` truncates.  What holds is the
+    partial statement: the two agree exactly when `pos` is the LAST element. -/
+theorem erase_iterator_partial {v : Vec} {xs : List Val} (h : Rep v xs) {k : Nat} (hk : k + 1 = xs.length) (l : Ledger) :
+    ∃ v' l', eraseTo v k l = some (v', l') ∧ Rep v' (xs.eraseIdx k) := by
+  obtain ⟨v', l', h1, g⟩ := eraseTo_good h (show k ≤ xs.length by omega) l
+  refine ⟨v', l', h1, ?_⟩
+  have e : xs.eraseIdx k = xs.take k := by
+    rw [List.eraseIdx_eq_take_drop_succ, List.drop_eq_nil_of_le (by omega), List.append_nil]
+  rw [e]; exact g.rep
+
+example : ∃ v xs k, Rep v xs ∧ k + 1 = xs.length := ⟨vecOf 3 [1, 2, 3], [1, 2, 3], 2, Rep.mk (by decide), rfl⟩
+
+/-- … and for every other valid position the igris code (without a fault) leaves `xs.take k`, which is NOT
+    std::vector's `xs.eraseIdx k`: the elements behind `pos` are lost -/
+theorem erase_iterator_truncates {v : Vec} {xs : List Val} (h : Rep v xs) {k : Nat} (hk : k + 1 < xs.length) (l : Ledger) :
+    ∃ v' l', eraseTo v k l = some (v', l') ∧ Rep v' (xs.take k) ∧ xs.take k ≠ xs.eraseIdx k := by
+  obtain ⟨v', l', h1, g⟩ := eraseTo_good h (show k ≤ xs.length by omega) l
+  refine ⟨v', l', h1, g.rep, ?_⟩
+  intro e
+  have := congrArg List.length e
+  rw [List.length_take, List.length_eraseIdx] at this
+  split at this <;> omega
+
+/-- the witness on the model: `v = {1,2,3}; v.erase(v.begin());` — the model (= the code) runs it without a
+    fault and leaves the EMPTY vector, std::vector leaves {2,3} -/
+theorem erase_iterator_witness :
+    ((runOut false St.init [.listCtor 0 [1, 2, 3], .eraseTo 0 0]).bind fun p => contents (p.1.regs 0)) = some [] ∧
+    ([1, 2, 3] : List Val).eraseIdx 0 = [2, 3] := by decide
+
+/-- VALUE-INITIALISATION.  `resize(n)` (and `vector(n)`, which calls it) appends elements with the value 0 — like
+    std::vector — whatever the slot memory held before: the slots behind `size` are `raw` in a represented
+    vector, i.e. memory of arbitrary contents (never written, left behind by a destroyed element after a
+    shrink, or part of a recycled block), and the result holds `live 0` there. -/
+theorem resize_value_initialises {v : Vec} {xs : List Val} (h : Rep v xs) (n : Nat) (l : Ledger) :
+    ∃ v' l', resize v n l = some (v', l') ∧ Rep v' (xs.take n ++ List.replicate (n - xs.length) 0) := by
+  obtain ⟨v', l', h1, g⟩ := resize_good h n l
+  exact ⟨v', l', h1, g.rep⟩
+
 /-- the slot discipline catches what the unrepaired insert did: assigning to the unconstructed slot at
     the old end is a fault of the model -/
 theorem assign_to_raw_faults : assign (Buf.fresh 2) 1 7 = none := by
@@ -382,6 +424,15 @@ def OrigFaults (o : Orig) (ops : List Op) : Prop :=
   (runSpec (fun _ => []) ops).isSome = true ∧ (runFixed St.init ops).isSome = true ∧ (runOrig o St.init ops).isNone = true
 
 instance (o : Orig) (ops : List Op) : Decidable (OrigFaults o ops) := by unfold OrigFaults; infer_instance
+
+/-- the seeded change C02-resize-default-init (`new (ptr) T` instead of `new (ptr) T()`) on the model: the
+    appended element exists but has an indeterminate value; `v.resize(1); v[0]` — accepted by std::vector, run by
+    the code — reads it: fault.  So the refinement theorem is false for that variant: the catch does not rest on
+    the oracle alone. -/
+theorem resize_default_init_witness :
+    OrigFaults .resizeDefault [.resize 0 1, .index 0 0] ∧
+    OrigFaults .resizeDefault [.emplaceBack 0 (.val 7), .popBack 0, .resize 0 1, .eq 0 0] ∧
+    OrigFaults .resizeDefault [.sizeCtor 1 2, .iter 1] := by decide
 
 /-- 37ab9b2 (copy assignment allocated `m_size` = 0 slots and constructed `other.size()` elements behind the
     block): `a = {4,5}; b = a;` constructs outside the allocation -/
@@ -710,5 +761,82 @@ theorem flat_map_over_vector_refines {lt : Int → Int → Bool} (h : StrictWeak
   · have := g.blk; simp [Ledger.blocks, held] at this ⊢; omega
 
 example : ∃ c : Coding, c.ok := Coding.exists_ok
+
+/-! ### exceptions thrown by element operations (Exc.lean)
+
+  The element operations that may throw are default / value / copy construction and copy assignment (moves and
+  the destructor are `noexcept`, as std::vector itself needs for its strong guarantee).  `stepX portable s fz op`
+  is the member function with the fuse `fz`: `some k` = the k-th throwing-capable element operation it executes
+  throws.  `throwPoints f op` is the number of such operations (the fuse fires iff `k < throwPoints f op`),
+  `specThrow f k op` the contents afterwards.  The theorems are about the code after the fixes 93cf379 (copy
+  assignment), 04aed91 (constructors), 6f9cb41 (resize), 54e3cd5 (range insert); the unrepaired bodies are
+  shown as VIOLATIONs by the check (corpus `exc_*.ops`). -/
+
+theorem opRegs_eq (op : Op) : opRegs op = op.regs := by cases op <;> rfl
+
+/-- no fuse: the exception-aware model IS the model of the other theorems -/
+theorem no_fuse_is_step (portable : Bool) (s : St) (op : Op) :
+    stepX portable s none op = Out.ofOption (step portable s op) := stepX_none portable s op
+
+/-- THE FUSE IS NOT REACHED (it is larger than the number of throwing-capable operations the call executes):
+    the operation completes, returns std::vector's return value and leaves std::vector's contents -/
+theorem exception_not_fired (portable : Bool) {R : Nat} {s : St} {f : Nat → List Val} (hI : SInv R s f) (op : Op)
+    (hR : ∀ r ∈ op.regs, r < R) {f' : Nat → List Val} {ret : Ret} (hs : specStep f op = some (f', ret))
+    (fz : Option Nat) (hf : ∀ k, fz = some k → throwPoints f op ≤ k) :
+    ∃ s', stepX portable s fz op = .ok (s', ret) ∧ SInv R s' f' :=
+  stepX_not_fired portable
+    (fun {_ _} hI op hR {_ _} hs => step_refines portable hI op (by rw [← opRegs_eq]; exact hR) hs)
+    hI op (by rw [opRegs_eq]; exact hR) hs fz hf
+
+/-- BASIC GUARANTEE for every member function, STRONG GUARANTEE where std::vector gives it.  Whatever
+    throwing-capable element operation of the call throws (`k < throwPoints f op`), the member function is left by
+    the exception WITHOUT A FAULT of the slot model (no construction over an object, no destruction / assignment /
+    read of memory that holds no object, nothing outside the block) and the state satisfies the full invariant
+    again: every vector has size ≤ capacity = block size, exactly the slots below size hold constructed, readable
+    (not moved-from) elements, every slot behind is unconstructed; constructed − destroyed objects = Σ sizes
+    (nothing leaked, nothing destroyed twice), allocated − freed blocks = vectors holding a block.  The contents
+    are `specThrow f k op`: UNCHANGED for push_back / emplace_back / insert(pos, value) / emplace / insert_sorted
+    (also with an argument aliasing an element, also at capacity: the reallocation happens after the only
+    throwing operation) and resize — the strong guarantee; NO OBJECT for the constructors (the old object of the
+    register was destroyed before, the new one never came to exist: no leak); the `k` copies made for copy
+    assignment; the elements in front of `pos` followed by the `k` copies made for insert(pos, first, last). -/
+theorem exception_safety (portable : Bool) {R : Nat} {s : St} {f : Nat → List Val} (hI : SInv R s f) (op : Op)
+    (hR : ∀ r ∈ op.regs, r < R) {f' : Nat → List Val} {ret : Ret} (hs : specStep f op = some (f', ret))
+    {k : Nat} (hk : k < throwPoints f op) :
+    ∃ s', stepX portable s (some k) op = .threw (s', .throw) ∧ SInv R s' (specThrow f k op) :=
+  stepX_fired portable hI op (by rw [opRegs_eq]; exact hR) hs hk
+
+/-- the strong guarantee spelled out: for these operations `specThrow` is the identity -/
+theorem strong_guarantee_ops (f : Nat → List Val) (k : Nat) (op : Op)
+    (h : (∃ r a, op = .emplaceBack r a) ∨ (∃ r p a, op = .emplace r p a) ∨ (∃ r x, op = .insertSorted r x) ∨
+      (∃ r n, op = .resize r n)) : specThrow f k op = f := by
+  rcases h with ⟨r, a, rfl⟩ | ⟨r, p, a, rfl⟩ | ⟨r, x, rfl⟩ | ⟨r, n, rfl⟩ <;> rfl
+
+example : ∃ (s : St) (f : Nat → List Val) (f' : Nat → List Val) (ret : Ret), SInv 1 s f ∧
+    specStep f (.listCtor 0 [1, 2, 3]) = some (f', ret) ∧ 1 < throwPoints f (.listCtor 0 [1, 2, 3]) :=
+  ⟨St.init, fun _ => [], _, _, SInv.init 1, rfl, by decide⟩
+
+/-- HISTORIES WITH EXCEPTIONS.  Any history std::vector accepts, each operation with its own fuse (the caller
+    catches the exception and goes on using the vectors): no fault anywhere, every intermediate state satisfies the
+    invariant with the contents `runSpecX` predicts — the vectors stay usable — … -/
+theorem exception_histories_safe (portable : Bool) {R : Nat} (ops : List (Op × Option Nat))
+    (hR : ∀ p ∈ ops, ∀ r ∈ p.1.regs, r < R) {f' : Nat → List Val} (hs : runSpecX (fun _ => []) ops = some f') :
+    ∃ s', runX portable St.init ops = some s' ∧ SInv R s' f' :=
+  runX_safe portable
+    (fun {_ _} hI op hR {_ _} hs => step_refines portable hI op (by rw [← opRegs_eq]; exact hR) hs)
+    ops (SInv.init R) (by intro p hp; rw [opRegs_eq]; exact hR p hp) hs
+
+/-- … and destructible: after the destructors every element object ever constructed has been destroyed exactly
+    once and every block freed, WHATEVER threw on the way (no leak) -/
+theorem exception_no_leak (portable : Bool) (R : Nat) (ops : List (Op × Option Nat))
+    (hR : ∀ p ∈ ops, ∀ r ∈ p.1.regs, r < R) {f' : Nat → List Val} (hs : runSpecX (fun _ => []) ops = some f') :
+    ∃ s' s'', runX portable St.init ops = some s' ∧ destroyAll s' R = some s'' ∧
+      s''.led.made = s''.led.dtor ∧ s''.led.alloc = s''.led.dealloc ∧ ∀ r, r < R → s''.regs r = Vec.empty :=
+  runX_no_leak portable R
+    (fun {_ _} hI op hR {_ _} hs => step_refines portable hI op (by rw [← opRegs_eq]; exact hR) hs)
+    ops (by intro p hp; rw [opRegs_eq]; exact hR p hp) hs
+
+example : (runSpecX (fun _ => []) [(.listCtor 0 [1, 2, 3], none), (.insertRange 0 1 (.ext [7, 8, 9]), some 1),
+    (.emplaceBack 0 (.own 0), some 0), (.copyAssign 1 0, some 1), (.resize 1 4, some 2)]).isSome = true := by decide
 
 end Igris.C02
